@@ -33,8 +33,12 @@ func VerifC05() {
 	K := rt.Param("K")
 	vals := []interface{}{int(7), "seven"}
 	maxq := int64(0)
+	idx := rt.Param("IDX")
+	if idx < 0 {
+		idx = -1 - rt.Choice(2) // a negative index counts from the end: -1 the last, -2 (= -len) the first of two arguments
+	}
 	mk := func(res string) *Rule {
-		r := &Rule{Resource: res, MetricType: QPS, ParamIndex: rt.Param("IDX"), Threshold: g.thr, BurstCount: g.burst, DurationInSec: g.dur,
+		r := &Rule{Resource: res, MetricType: QPS, ParamIndex: idx, Threshold: g.thr, BurstCount: g.burst, DurationInSec: g.dur,
 			ParamsMaxCapacity: capacity, SpecificItems: map[interface{}]int64{vals[0]: g.sthr}}
 		if throttling {
 			r.ControlBehavior, r.BurstCount, r.MaxQueueingTimeMs = Throttling, 0, maxq
@@ -55,7 +59,7 @@ func VerifC05() {
 	var seen [2]bool
 	var lastReq [2]int64
 	argsFor := func(v int) []interface{} {
-		if rt.Param("IDX") < 0 {
+		if idx == -1 {
 			return []interface{}{"pad", vals[v]}
 		}
 		return []interface{}{vals[v], "pad"}
